@@ -42,7 +42,7 @@ RULE = ("each run draws a configuration (lattice/point group, grid, mesh, adpt_f
         "site); non-trivial = at least one restart happened")
 PROBES = ["restart_segments", "boundary_crash", "return_stop", "mode_switch", "listing_permuted", "listing_last_not_max",
           "anyop_crash_fired", "restart_raised", "restart_after_midcrash_ok", "torn_partial", "torn_buffer_lost",
-          "zero_iteration_restart", "parallel_segment", "tetra_grid", "extra_points_zero_weight"]
+          "zero_iteration_restart", "parallel_segment", "tetra_grid", "extra_points_zero_weight", "absorb_old_new"]
 PROBES_THOROUGH = ["sweep_sites", "sweep_complete"]
 REAL = ["run_grid.run (restart branch), read_factors/write_factors", "run_grid.process", "Grid/GridTetra",
         "Kpoint classes (pickle round trip, dump/get results)", "exclude_equiv_points", "ResultDict/EnergyResult"]
@@ -85,7 +85,16 @@ def _run_segment(dec, rec, cfg, scr, k, *, restart, adpt_num_iter, mode, paralle
         if crash_after_iter is not None and it["i_iter"] == crash_after_iter:
             h.disk.crash_at = h.disk.nops + 1       # the very next intercepted op is 'savedata_exit'
 
-    h = Harness(dec, rec, clock=clock, ray=ray, disk=disk, on_iteration=on_iteration)
+    def count_absorb(orig, h_):
+        def absorb(self_, other):
+            if other is not None and self_.was_evaluated_flag and not other.was_evaluated_flag:
+                rec.fire("absorb_old_new")
+            return orig(self_, other)
+        return absorb
+
+    from wannierberri.grid import Kpoint as _kp
+    h = Harness(dec, rec, clock=clock, ray=ray, disk=disk, on_iteration=on_iteration,
+                extra_patches=[(_kp.KpointBZparallel, "absorb", count_absorb)])
     s = _Seg()
     s.crashed, s.exc, s.returned, s.livelock = False, None, None, None
     with h:
